@@ -182,9 +182,11 @@ func (w *World) Exec(tpl *pongo2.Template, ep int, ctx pongo2.Context, blocks []
 	case EpExecuteWriter:
 		sw = w.NewWriter()
 		res.err = tpl.ExecuteWriter(ctx, w.CallerWriter(sw))
+		sw.Collect()
 	case EpExecuteWriterUnbuffered:
 		sw = w.NewWriter()
 		res.err = tpl.ExecuteWriterUnbuffered(ctx, w.CallerWriter(sw))
+		sw.Collect()
 	case EpExecuteBlocks:
 		m, err := tpl.ExecuteBlocks(ctx, blocks)
 		res.err = err
